@@ -253,6 +253,15 @@ func c05Client(c *Ctx, cs c05Case) {
 	}
 	cl := tq.VerifNewClient(conn, c05Key)
 	want := completeIn(pk, limit)
+	var kept []*tq.Packet // what Send returned belongs to the caller: it is looked at again when the stream is over
+	defer func() {
+		for i, g := range kept {
+			if g == nil || g.Header == nil || !sameHeader(*g.Header, pk[i].H) || !bytes.Equal(g.Body, pk[i].Clear) {
+				fail(fmt.Sprintf("the packet Send %d returned was intact when it was returned and differs from what the peer wrote after %d later Send calls", i, len(kept)-1-i))
+				return
+			}
+		}
+	}()
 	for i := range pk {
 		req := tq.NewPacket(tq.SetPacketHeader(implHeader(ref.Header{Version: 0xc0, Type: 1, Seq: byte(3 + 2*i), Session: uint32(0x100 + i)})), tq.SetPacketBody(minimalRequest(1)))
 		var got *tq.Packet
@@ -274,6 +283,7 @@ func c05Client(c *Ctx, cs c05Case) {
 				fail(fmt.Sprintf("Send %d returned a packet that differs from what the peer wrote", i))
 				return
 			}
+			kept = append(kept, got)
 		} else {
 			if err == nil {
 				fail(fmt.Sprintf("Send %d returned a packet although only %d answers were completely delivered (shortened or invented packet)", i, want))
